@@ -56,6 +56,9 @@ type Solver struct {
 	declW     map[string]int
 	buf       strings.Builder
 	dump      io.Writer
+	pathLog   strings.Builder // everything asserted/defined on the current path (for the fallback solver)
+	fallback  []string
+	fbStats   struct{ Calls, Sat, Unsat, Unknown int }
 }
 
 func newSolver(argv []string, timeoutMs int) *Solver {
@@ -111,6 +114,7 @@ func (s *Solver) beginPath() {
 	s.declared = map[string]bool{}
 	s.declOrder = nil
 	s.declW = map[string]int{}
+	s.pathLog.Reset()
 }
 
 func (s *Solver) ensureScope() {
@@ -166,6 +170,7 @@ func (s *Solver) assert(t *Term) {
 	s.buf.Reset()
 	s.define(t)
 	fmt.Fprintf(&s.buf, "(assert %s)\n", t.leafName())
+	s.pathLog.WriteString(s.buf.String())
 	s.send(s.buf.String())
 }
 
@@ -219,6 +224,7 @@ func (s *Solver) check(kind string, extra *Term, wantModel bool) (res string, mo
 	s.buf.Reset()
 	if extra != nil {
 		s.define(extra)
+		s.pathLog.WriteString(s.buf.String())
 		fmt.Fprintf(&s.buf, "(push 1)\n(assert %s)\n", extra.leafName())
 	}
 	s.buf.WriteString("(check-sat)\n")
@@ -242,6 +248,23 @@ func (s *Solver) check(kind string, extra *Term, wantModel bool) (res string, mo
 		s.stats.Unsat++
 	case res == "unknown" || res == "timeout":
 		res = "unknown"
+		if len(s.fallback) > 0 {
+			if extra != nil {
+				s.send("(pop 1)\n")
+			}
+			r2, m2 := s.runFallback(extra, wantModel)
+			s.stats.ByKind["fallback:"+r2]++
+			switch r2 {
+			case "sat":
+				s.stats.Sat++
+				return r2, m2
+			case "unsat":
+				s.stats.Unsat++
+				return r2, nil
+			}
+			s.stats.Unknown++
+			return "unknown", nil
+		}
 		s.stats.Unknown++
 	default:
 		// (error ...) or anything unexpected: inconclusive; restart the solver
@@ -300,6 +323,45 @@ func parseValues(txt string, m Model) {
 		}
 		m[name] = v
 	}
+}
+
+// runFallback re-decides the current query from scratch in another solver (one-shot process).
+func (s *Solver) runFallback(extra *Term, wantModel bool) (string, Model) {
+	var sb strings.Builder
+	sb.WriteString(s.pathLog.String())
+	if extra != nil {
+		fmt.Fprintf(&sb, "(assert %s)\n", extra.leafName())
+	}
+	sb.WriteString("(check-sat)\n")
+	if wantModel && len(s.declOrder) > 0 {
+		sb.WriteString("(get-value (")
+		for _, n := range s.declOrder {
+			sb.WriteString(n)
+			sb.WriteString(" ")
+		}
+		sb.WriteString("))\n")
+	}
+	cmd := exec.Command(s.fallback[0], s.fallback[1:]...)
+	cmd.Stdin = strings.NewReader(sb.String())
+	t0 := time.Now()
+	out, _ := cmd.Output()
+	s.stats.Seconds += time.Since(t0).Seconds()
+	txt := string(out)
+	if strings.Contains(txt, "(error") && !strings.HasPrefix(strings.TrimSpace(txt), "unsat") {
+		return "unknown", nil
+	}
+	lines := strings.SplitN(strings.TrimSpace(txt), "\n", 2)
+	switch strings.TrimSpace(lines[0]) {
+	case "unsat":
+		return "unsat", nil
+	case "sat":
+		m := Model{}
+		if len(lines) > 1 {
+			parseValues(lines[1], m)
+		}
+		return "sat", m
+	}
+	return "unknown", nil
 }
 
 type engineError struct{ msg string }
